@@ -1,121 +1,159 @@
-// Copyright 2013 The Go Authors. All rights reserved.
-// Use of this source code is governed by a BSD-style
-// license that can be found in the LICENSE file.
-
 package interp
 
-// Custom hashtable atop map.
-// For use when the key's equivalence relation is not consistent with ==.
-
-// The Go specification doesn't address the atomicity of map operations.
-// The FAQ states that an implementation is permitted to crash on
-// concurrent map access.
+// smap: insertion-ordered association map supporting symbolic keys.
+// (Replaces the two map representations of the original interpreter.)
 
 import (
 	"go/types"
 )
 
-type hashable interface {
-	hash(t types.Type) int
-	eq(t types.Type, x interface{}) bool
+type smap struct {
+	kt   types.Type
+	keys []value
+	vals []value
+	idx  map[value]int // fast index for concrete, natively comparable keys
+	nsym int           // number of keys that are not fast-indexable
+	epoch int          // path epoch in which the map was created or first logged
 }
 
-type entry struct {
-	key   hashable
-	value value
-	next  *entry
-}
-
-// A hashtable atop the built-in map.  Since each bucket contains
-// exactly one hash value, there's no need to perform hash-equality
-// tests when walking the linked list.  Rehashing is done by the
-// underlying map.
-type hashmap struct {
-	keyType types.Type
-	table   map[int]*entry
-	length  int // number of entries in map
-}
-
-// makeMap returns an empty initialized map of key type kt,
-// preallocating space for reserve elements.
 func makeMap(kt types.Type, reserve int64) value {
-	if usesBuiltinMap(kt) {
-		return make(map[value]value, reserve)
-	}
-	return &hashmap{keyType: kt, table: make(map[int]*entry, reserve)}
+	return &smap{kt: kt, idx: map[value]int{}}
 }
 
-// delete removes the association for key k, if any.
-func (m *hashmap) delete(k hashable) {
-	if m != nil {
-		hash := k.hash(m.keyType)
-		head := m.table[hash]
-		if head != nil {
-			if k.eq(m.keyType, head.key) {
-				m.table[hash] = head.next
-				m.length--
-				return
+// fastKey reports whether k can be used as a native Go map key with the same equality.
+func fastKey(k value) bool {
+	switch k.(type) {
+	case bool, int, int8, int16, int32, int64, uint, uint8, uint16, uint32, uint64, uintptr,
+		float32, float64, complex64, complex128, string, *value, *mchan, *syncObj, *smap:
+		return true
+	}
+	return false
+}
+
+func (m *smap) len() int {
+	if m == nil {
+		return 0
+	}
+	return len(m.keys)
+}
+
+// find returns the index of key k or -1 (may fork on symbolic equality).
+func (m *smap) find(k value) int {
+	if m == nil {
+		return -1
+	}
+	if fastKey(k) && m.nsym == 0 {
+		if i, ok := m.idx[k]; ok {
+			return i
+		}
+		return -1
+	}
+	for i, ki := range m.keys {
+		if truth(equalsV(m.kt, k, ki)) {
+			return i
+		}
+	}
+	return -1
+}
+
+func (m *smap) lookup(k value) (value, bool) {
+	i := m.find(k)
+	if i < 0 {
+		return nil, false
+	}
+	return m.vals[i], true
+}
+
+func (m *smap) insert(k, v value) {
+	if m == nil {
+		panic(runtimeError("assignment to entry in nil map"))
+	}
+	i := m.find(k)
+	if i >= 0 {
+		m.vals[i] = v
+		return
+	}
+	m.keys = append(m.keys, k)
+	m.vals = append(m.vals, v)
+	if fastKey(k) {
+		m.idx[k] = len(m.keys) - 1
+	} else {
+		m.nsym++
+	}
+}
+
+func (m *smap) delete(k value) {
+	if m == nil {
+		return
+	}
+	i := m.find(k)
+	if i < 0 {
+		return
+	}
+	if !fastKey(m.keys[i]) {
+		m.nsym--
+	}
+	m.keys = append(m.keys[:i:i], m.keys[i+1:]...)
+	m.vals = append(m.vals[:i:i], m.vals[i+1:]...)
+	m.idx = map[value]int{}
+	for j, kj := range m.keys {
+		if fastKey(kj) {
+			m.idx[kj] = j
+		}
+	}
+}
+
+type smapIter struct {
+	m    *smap
+	keys []value
+	i    int
+}
+
+func (it *smapIter) next() tuple {
+	for it.i < len(it.keys) {
+		k := it.keys[it.i]
+		it.i++
+		// skip entries deleted during iteration
+		var j int = -1
+		if fastKey(k) && it.m.nsym == 0 {
+			if jj, ok := it.m.idx[k]; ok {
+				j = jj
 			}
-			prev := head
-			for e := head.next; e != nil; e = e.next {
-				if k.eq(m.keyType, e.key) {
-					prev.next = e.next
-					m.length--
-					return
+		} else {
+			for jj, kj := range it.m.keys {
+				if sameKeyIdentity(k, kj) {
+					j = jj
+					break
 				}
-				prev = e
 			}
 		}
-	}
-}
-
-// lookup returns the value associated with key k, if present, or
-// value(nil) otherwise.
-func (m *hashmap) lookup(k hashable) value {
-	if m != nil {
-		hash := k.hash(m.keyType)
-		for e := m.table[hash]; e != nil; e = e.next {
-			if k.eq(m.keyType, e.key) {
-				return e.value
-			}
+		if j < 0 {
+			continue
 		}
+		return tuple{true, k, it.m.vals[j]}
 	}
-	return nil
+	return tuple{false, nil, nil}
 }
 
-// insert updates the map to associate key k with value v.  If there
-// was already an association for an eq() (though not necessarily ==)
-// k, the previous key remains in the map and its associated value is
-// updated.
-func (m *hashmap) insert(k hashable, v value) {
-	hash := k.hash(m.keyType)
-	head := m.table[hash]
-	for e := head; e != nil; e = e.next {
-		if k.eq(m.keyType, e.key) {
-			e.value = v
-			return
+// sameKeyIdentity is a cheap structural identity used only to re-find snapshot keys.
+func sameKeyIdentity(a, b value) bool {
+	defer func() { recover() }()
+	switch a := a.(type) {
+	case symstr:
+		if bs, ok := b.(symstr); ok {
+			return len(a.b) == len(bs.b) && (len(a.b) == 0 || &a.b[0] == &bs.b[0])
 		}
+		return false
+	case structure:
+		if bs, ok := b.(structure); ok {
+			return len(a) == len(bs) && (len(a) == 0 || &a[0] == &bs[0])
+		}
+		return false
+	case array:
+		if bs, ok := b.(array); ok {
+			return len(a) == len(bs) && (len(a) == 0 || &a[0] == &bs[0])
+		}
+		return false
 	}
-	m.table[hash] = &entry{
-		key:   k,
-		value: v,
-		next:  head,
-	}
-	m.length++
-}
-
-// len returns the number of key/value associations in the map.
-func (m *hashmap) len() int {
-	if m != nil {
-		return m.length
-	}
-	return 0
-}
-
-// entries returns a rangeable map of entries.
-func (m *hashmap) entries() map[int]*entry {
-	if m != nil {
-		return m.table
-	}
-	return nil
+	return a == b
 }
